@@ -152,6 +152,9 @@ func checkRebind(c *RebindCase) error {
 	ss.mp.tables[bKey] = &wrong
 	st := ss.run(attempt{l: l})
 	st.drainLib()
+	if err := st.panicErr(); err != nil {
+		return err
+	}
 	if st.streamErr == nil {
 		return fmt.Errorf("the mapper reports %d columns for a table map with %d columns and Stream returned nil", len(wrong.Cols), len(h.Tables[1].Cols))
 	}
@@ -209,6 +212,9 @@ func checkAttribution(c *E2ECase) error {
 	defer ss.close()
 	st := ss.run(attempt{l: l, pacing: c.Pacing})
 	st.drainLib()
+	if err := st.panicErr(); err != nil {
+		return err
+	}
 	if err := compareTxs(st.got, exp, true); err != nil {
 		return fmt.Errorf("%v [stream err: %v]", err, st.streamErr)
 	}
@@ -309,6 +315,7 @@ func TestC15(t *testing.T) {
 			c.RowsB = gen.RowsEvent(rt, []hist.Table{c.B}, 0, gen.NewClock(), ho)
 			rec.Case(true, c, fmt.Sprintf("rebind/mode=%d", c.Mode), fmt.Sprintf("rebind/sameTx=%v", c.SameTx))
 			rec.Sample(c)
+			journal("C15", "c15rebind", c)
 			if err := checkRebind(c); err != nil {
 				rec.Violation("c15rebind", c, "", err)
 				rt.Fatalf("C15 violation: %v", err)
@@ -322,6 +329,7 @@ func TestC15(t *testing.T) {
 				}
 			}
 			rec.Case(maps >= 2, c, "e2e", fmt.Sprintf("e2e/tables=%d", len(c.H.Tables)))
+			journal("C15", "c15e2e", c)
 			if err := checkAttribution(c); err != nil {
 				rec.Violation("c15e2e", c, "", err)
 				rt.Fatalf("C15 violation: %v", err)
